@@ -20,7 +20,7 @@ package lisp
 //@   changes world
 //@   ensures out(res, e, world()) == evalOut(ast, env, old(world())) @assume
 //@   loop 1 tailrec evalStep(ast, env, world(), OUT) @C01,C03,C08,C12,C18
-//@   loop 2 invariant i % 2 == 0 && 0 <= i && i <= len(arr1) && world() == letW(arr1, i, let_env, atentry(world())) && letOK(arr1, i, let_env, atentry(world())) @C01,C03,C08,C12,C18
+//@   loop 2 invariant i % 2 == 0 && 0 <= i && i <= len(arr1) && world() == letW(arr1, i, let_env, atentry(world())) && letErr(arr1, 0, let_env, atentry(world())) == letErr(arr1, i, let_env, atentry(world())) @C01,C03,C08,C12,C18
 //@   at "return eval_ast(ctx, ast, env)"#1 assert ctx == nil || !done(ctx) @C07
 //@   at "ast, e = macroexpand(ctx, ast, env)" assert ctx == nil || !done(ctx) @C07
 //@   loop 1 readsat "defer func() { _, _ = do(ctx, finallyDo, 0, 0, env) }()"
@@ -177,18 +177,18 @@ package lisp
 //@ spec abstract errorString(e error) string
 //@ spec seqOf(x MalType) []MalType = ite(is(x, List), x.(List).Val, x.(Vector).Val)
 //@ spec rec letW(bs []MalType, i int, le EnvType, w World) World = ite(i <= 0, w, defW(outW(evalOut(bs[i-1], le, letW(bs, i-2, le, w))), envp(le), bs[i-2].(Symbol).Val, outV(evalOut(bs[i-1], le, letW(bs, i-2, le, w)))))
+//@ spec rec letErr(bs []MalType, j int, le EnvType, w World) int = ite(j >= len(bs), -1, ite(!is(bs[j], Symbol), j, ite(outE(evalOut(bs[j+1], le, letW(bs, j, le, w))) != nil, j, letErr(bs, j+2, le, w))))
+//@ spec letFailAt(bs []MalType, k int, le EnvType, w World, o Outcome) bool = ite(!is(bs[k], Symbol), failure(o, letW(bs, k, le, w)), o == propagate(evalOut(bs[k+1], le, letW(bs, k, le, w))))
 //@ spec letOK(bs []MalType, n int, le EnvType, w World) bool = forall(j, 0, n, implies(j % 2 == 0, is(bs[j], Symbol) && outE(evalOut(bs[j+1], le, letW(bs, j, le, w))) == nil))
 //@ spec letFail(bs []MalType, le EnvType, w World, o Outcome) bool = exists(k, 0, len(bs), k % 2 == 0 && letOK(bs, k, le, w) && ite(!is(bs[k], Symbol), failure(o, letW(bs, k, le, w)), outE(evalOut(bs[k+1], le, letW(bs, k, le, w))) != nil && o == propagate(evalOut(bs[k+1], le, letW(bs, k, le, w)))))
 //@ spec bodyOf(y MalType, from int, env EnvType, w World, o Outcome) bool = ite(len(lst(y)) == from, o == evalOut(nil, env, w), ite(!seqOK(doSub(y, from, -1), len(doSub(y, from, -1)), env, w), firstErr(doSub(y, from, -1), env, w, o), o == evalOut(lst(y)[len(lst(y))-1], env, seqW(doSub(y, from, -1), len(doSub(y, from, -1)), env, w))))
-//@ spec letStepThorough(y MalType, env EnvType, w World, o Outcome) bool = ite(!(is(arg(y, 1), List) || is(arg(y, 1), Vector)) || len(seqOf(arg(y, 1))) % 2 != 0, failure(o, scopeW(w, envp(env))), ite(!letOK(seqOf(arg(y, 1)), len(seqOf(arg(y, 1))), val(scopeR(w, envp(env))), scopeW(w, envp(env))), letFail(seqOf(arg(y, 1)), val(scopeR(w, envp(env))), scopeW(w, envp(env)), o), bodyOf(y, 2, val(scopeR(w, envp(env))), letW(seqOf(arg(y, 1)), len(seqOf(arg(y, 1))), val(scopeR(w, envp(env))), scopeW(w, envp(env))), o)))
-// The full step relation of let (letStepThorough above) replaces letStep in the thorough tier only
-// (5-30 s per case), and so does that of try (tryStepThorough, with the cut lemmas tryShapeThorough
-// and tryArityThorough asserted after the body has run): 5-60 s per case, all discharged with the
-// thorough time-outs. What is checked for let: the shape
-// errors, that a new scope is opened first, and (loop 2 invariant) that the bindings are evaluated
-// in order, each in the new scope with the earlier ones visible; a let that succeeds continues the
-// loop (tail position) rather than returning. For try (quick tier): the empty form only.
-//@ spec letStep(y MalType, env EnvType, w World, o Outcome) bool = ite(!(is(arg(y, 1), List) || is(arg(y, 1), Vector)) || len(seqOf(arg(y, 1))) % 2 != 0, failure(o, scopeW(w, envp(env))), ite(outE(o) != nil, true, tail(true)))
+//@ spec letStep(y MalType, env EnvType, w World, o Outcome) bool = ite(!(is(arg(y, 1), List) || is(arg(y, 1), Vector)) || len(seqOf(arg(y, 1))) % 2 != 0, failure(o, scopeW(w, envp(env))), ite(letErr(seqOf(arg(y, 1)), 0, val(scopeR(w, envp(env))), scopeW(w, envp(env))) >= 0, letFailAt(seqOf(arg(y, 1)), letErr(seqOf(arg(y, 1)), 0, val(scopeR(w, envp(env))), scopeW(w, envp(env))), val(scopeR(w, envp(env))), scopeW(w, envp(env)), o), bodyOf(y, 2, val(scopeR(w, envp(env))), letW(seqOf(arg(y, 1)), len(seqOf(arg(y, 1))), val(scopeR(w, envp(env))), scopeW(w, envp(env))), o)))
+// let is checked in both tiers: letErr is the index of the first binding that fails (a non-symbol name
+// or an error of its value form), -1 if none; the binding loop carries "no failure before i" as
+// letErr(bs, 0) == letErr(bs, i), so no quantifier is needed. The full relation of try
+// (tryStepThorough, with the cut lemmas tryShapeThorough and tryArityThorough asserted after the
+// body has run) needs 5-60 s per case and replaces tryStep in the thorough tier only; the quick
+// tier checks the empty try form.
 //@ spec tryStep(y MalType, env EnvType, w World, o Outcome) bool = ite(len(lst(y)) == 1, o == out(nil, nil, w), true)
 //@ spec firstName(x MalType) string = ite(x != nil && is(x, List) && len(lst(x)) > 0 && is(lst(x)[0], Symbol), lst(x)[0].(Symbol).Val, "")
 //@ spec caughtV(e error) MalType = ite(is(e, `interface{ ErrorValue() MalType }`), errorValueOf(e), val(errorString(e)))
